@@ -9,4 +9,4 @@ require (
 	golang.org/x/exp v0.0.0-20230725093048-515e97ebf090 // indirect
 )
 
-replace github.com/kisielk/og-rek => /tmp/repo_seed
+replace github.com/kisielk/og-rek => /repo
